@@ -1,7 +1,11 @@
 package main
 
 import (
+	"encoding/json"
+	"errors"
 	"fmt"
+
+	"github.com/trustbloc/sidetree-core-go/pkg/document"
 
 	"github.com/trustbloc/sidetree-core-go/pkg/dochandler"
 	"github.com/trustbloc/sidetree-core-go/pkg/processor"
@@ -129,6 +133,40 @@ func checkC04(c *hx.Ctx) {
 					return
 				}
 			}
+			// the long form of the deactivated DID (it carries the create request) never makes the DID look alive: neither when
+			// the anchored history is readable, nor when the operation store cannot be read, nor for an unknown version
+			{
+				var init map[string]interface{}
+				_ = json.Unmarshal(H[0].Request, &init)
+				delete(init, "type")
+				long := hx.Namespace + ":" + ch.U.Suffix + ":" + ref.B64(ref.MustJCS(init))
+				lstore := hx.NewOpStore()
+				lstore.Set(ch.U.Suffix, ToAnchored(ch.U.Suffix, pubOps))
+				ldh := dochandler.New(hx.Namespace, nil, intakePC, &hx.RecWriter{}, processor.New("verif", lstore, pc), hx.NopMetrics{})
+				alive := func(res *document.ResolutionResult, err error) bool {
+					if err != nil || res == nil {
+						return false
+					}
+					md, _ := roundTrip(res.DocumentMetadata).(map[string]interface{})
+					return md["deactivated"] != true
+				}
+				c.Eval()
+				if res, err := ldh.ResolveDocument(long); alive(res, err) {
+					c.Violation("C04 the long-form DID of a deactivated DID resolves as an active document", map[string]interface{}{"did": long, "stored": replayOps(pubOps)})
+					return
+				}
+				lstore.GetErr = func(string) error { return errors.New("injected store read failure: connection refused") }
+				if res, err := ldh.ResolveDocument(long); alive(res, err) {
+					c.Violation("C04 while the operation store cannot be read, the long-form DID of a deactivated DID resolves as an active document from its embedded create request", map[string]interface{}{"did": long, "stored": replayOps(pubOps)})
+					return
+				}
+				lstore.GetErr = nil
+				if res, err := ldh.ResolveDocument(long, document.WithVersionID("no-such-version")); alive(res, err) {
+					c.Violation("C04 the long-form DID of a deactivated DID resolves as an active document when an unknown version id is requested", map[string]interface{}{"did": long, "stored": replayOps(pubOps)})
+					return
+				}
+				c.Count("long_form_of_deactivated_did")
+			}
 			if i < 2 {
 				c.Sample(3, map[string]interface{}{"kind": "deactivate-terminal", "base": histString(H), "extension": histString(E)})
 			}
@@ -210,6 +248,7 @@ func checkC04(c *hx.Ctx) {
 		}
 	})
 	c.Floor("deactivated_histories", 100)
+	c.Floor("long_form_of_deactivated_did", 50)
 	c.Floor("histories_crossing_the_genesis_of_a_stricter_version", 50)
 	c.Floor("unpublished_extension_ops", 50)
 	c.Floor("recover_histories", 100)
